@@ -92,7 +92,7 @@ def processClosed (deadline : Option Int) (it : Iter) : Outcome :=
       then some (sleepUntil d t0 it.pressure it.wake it.lag) else none
     | none => none
   let ach1 : Bool := past || (match slept with | some s => s.timedOut | none => pre)
-  let achieved := ach1 && it.patchInit
+  let achieved := ach1 && it.patchInit && !(it.required && deadline.isSome && it.paused)
   let tB : Int := match slept with | some s => s.tEnd | none => t0
   let ran := it.required && achieved
   { given := deadline, low := low, slept := slept, achieved := achieved,
@@ -107,8 +107,9 @@ theorem process_closed (dl : Option Int) (it : Iter) : process dl it = processCl
       simp [process, processIn, kopfOrder, runStages, stepStage, outcomeOf, PS.start, processClosed, hr, hg, hi]
   | some d =>
     cases hr : it.required <;> cases hg : it.gone <;> cases hm : it.patchMid <;> cases hi : it.patchInit <;>
+      cases hz : it.paused <;>
       by_cases hd : d = 0 <;> by_cases hp : d ≤ it.now + (it.dur : Int) <;>
-      simp [process, processIn, kopfOrder, runStages, stepStage, outcomeOf, PS.start, processClosed, hr, hg, hm, hi, hd, hp]
+      simp [process, processIn, kopfOrder, runStages, stepStage, outcomeOf, PS.start, processClosed, hr, hg, hm, hi, hz, hd, hp]
     all_goals
       cases hto : (sleepUntil d (it.now + (it.dur : Int)) it.pressure it.wake it.lag).timedOut <;> simp [hto]
 
@@ -130,7 +131,8 @@ theorem process_handlers_deadline {d : Int} {it : Iter} {t : Int}
   rw [process_closed] at h
   unfold processClosed at h
   cases hr : it.required <;> cases hg : it.gone <;> cases hm : it.patchMid <;> cases hi : it.patchInit <;>
-    by_cases hd : d = 0 <;> by_cases hp : d ≤ it.now + (it.dur : Int) <;> simp [hr, hg, hm, hi, hd, hp] at h
+    cases hz : it.paused <;>
+    by_cases hd : d = 0 <;> by_cases hp : d ≤ it.now + (it.dur : Int) <;> simp [hr, hg, hm, hi, hz, hd, hp] at h
   all_goals first
     | (rw [← h]; exact hp)
     | (obtain ⟨h1, h2⟩ := h; rw [← h2]; exact sleepUntil_timedOut h1)
@@ -145,7 +147,8 @@ theorem process_handlers_ge_now {dl : Option Int} {it : Iter} {t : Int}
     omega
   | some d =>
     cases hr : it.required <;> cases hg : it.gone <;> cases hm : it.patchMid <;> cases hi : it.patchInit <;>
-      by_cases hd : d = 0 <;> by_cases hp : d ≤ it.now + (it.dur : Int) <;> simp [hr, hg, hm, hi, hd, hp] at h
+      cases hz : it.paused <;>
+      by_cases hd : d = 0 <;> by_cases hp : d ≤ it.now + (it.dur : Int) <;> simp [hr, hg, hm, hi, hz, hd, hp] at h
     all_goals first
       | omega
       | (obtain ⟨_, h2⟩ := h; rw [← h2]; exact Int.le_trans (by omega) (sleepUntil_ge_now _ _ _ _ _))
@@ -161,7 +164,8 @@ theorem process_entered_of_handlers {dl : Option Int} {it : Iter} {t : Int}
     exact h
   | some d =>
     cases hr : it.required <;> cases hg : it.gone <;> cases hm : it.patchMid <;> cases hi : it.patchInit <;>
-      by_cases hd : d = 0 <;> by_cases hp : d ≤ it.now + (it.dur : Int) <;> simp [hr, hg, hm, hi, hd, hp] at h ⊢
+      cases hz : it.paused <;>
+      by_cases hd : d = 0 <;> by_cases hp : d ≤ it.now + (it.dur : Int) <;> simp [hr, hg, hm, hi, hz, hd, hp] at h ⊢
     all_goals exact h
 
 /-! ### the stage interpreter -/
